@@ -32,6 +32,7 @@
 (*  - "ext": repeats "ref" on the common prefix; a success stays the same success; a     *)
 (*    failure of "ref" carries a point evaluated by "ext" after the common prefix, i.e.  *)
 (*    Err carries the LAST iterate;                                                      *)
+(*  - success never carries a non-finite component (fin) where a verdict is required;    *)
 (*  - units: ok /\ basin => du <= 1, du = |x - x*| / (8 (tol + delta^2 + eps (|x*| + 1))) *)
 (*    measured by the harness against the analytically known root;                       *)
 (*  - expect = "ok" (guess inside the provable quadratic basin, limit >= 14) => success; *)
@@ -101,6 +102,7 @@ EndWhy(e) ==
     ELSE IF ~N!EndAllowed(st.v, st.n, st.maxit, st.cnt, e.ok) THEN "work bound / success without step"
     ELSE IF st.maxit = 0 /\ (e.ok \/ st.cnt # 0 \/ e.r # st.g) THEN "limit 0: Err(guess), no evaluation"
     ELSE IF e.pa # st.pb THEN "parameters() changed by solve"
+    ELSE IF e.ok /\ ~e.fin /\ e.expect # "any" THEN "Ok with a non-finite value"
     ELSE IF e.ok /\ e.basin /\ e.du > 1 THEN "Ok far from the root"
     ELSE IF e.expect = "ok" /\ ~e.ok THEN "failure inside the convergence basin"
     ELSE IF e.expect = "err" /\ e.ok THEN "success but criterion cannot be met"
